@@ -251,7 +251,7 @@ theorem rinvR_head {R : Ring} {th : Nat → Th} {t : Nat} {x' : Th} {v h : Nat} 
   subst hh
   refine rinvR_mk I ?_ ?_ ?_ ?_ ?_ (by intro e; rw [hx] at e; cases e)
   · refine { hN := g.hN, regne := g.regne, posle := ?_, win := ?_, tcle := g.tcle, tcN := ?_, loglen := ?_,
-             startle := g.startle, dlv := ?_, tagwf := ?_, curlt := g.curlt, regest := g.regest }
+             startle := g.startle, dlv := ?_, tagwf := ?_, curlt := g.curlt, regest := g.regest, estsub := g.estsub }
     · intro s hs; have := g.posle s hs; simp only []; omega
     · intro s hs; have := g.tcle s hs; simp only []; omega
     · simp only []; omega
@@ -523,7 +523,7 @@ theorem rinvR_pos {R : Ring} {th : Nat → Th} {t : Nat} {x' : Th} {s p v : Nat}
   have mono := fun s' => upd_pos_ge R.pos s p s' hp
   refine rinvR_mk I ?_ ?_ hl ?_ ?_ (by intro e; rw [hxa] at e; cases e)
   · refine { hN := g.hN, regne := g.regne, posle := ?_, win := ?_, tcle := ?_, tcN := g.tcN, loglen := g.loglen,
-             startle := ?_, dlv := ?_, tagwf := g.tagwf, curlt := g.curlt, regest := g.regest }
+             startle := ?_, dlv := ?_, tagwf := g.tagwf, curlt := g.curlt, regest := g.regest, estsub := g.estsub }
     · intro s' hs'
       by_cases e : s' = s
       · subst e; simp only [upd_same]; omega
@@ -546,5 +546,366 @@ theorem rinvR_pos {R : Ring} {th : Nat → Th} {t : Nat} {x' : Th} {s p v : Nat}
       · simpa [upd, e] using hu'
     · exact Or.inr hpub
   · intro u h' hu hcu e; rw [hxc] at e; cases e
+
+end MQ
+
+namespace MQ
+
+theorem reg_alloc {R : Ring} {l : List Nat} (hc : R.cur < R.nextGrp) (s : Nat) :
+    reg { R with nextGrp := R.nextGrp + 1, groups := upd R.groups R.nextGrp l } s ↔ reg R s := by
+  simp only [reg]
+  rw [upd_ne _ _ _ _ (by omega)]
+
+/-- a new (unpublished) reader group is allocated -/
+theorem loc_alloc_stable {R : Ring} {x : Th} {l : List Nat} (hc : R.cur < R.nextGrp) (hq : Loc R x) :
+    Loc { R with nextGrp := R.nextGrp + 1, groups := upd R.groups R.nextGrp l } x := by
+  have hr := fun s => @reg_alloc R l hc s
+  obtain ⟨pc, g', v', outer, ff, pn, ng, ns, s, single, aux⟩ := x
+  cases pc
+  case g2 m h tl p i md =>
+    simp only [Loc] at hq ⊢
+    obtain ⟨a, b, c, e, f, k⟩ := hq
+    refine ⟨a, b, c, e, fun hpc => ?_, k⟩
+    have : p ≠ R.nextGrp := by omega
+    rw [upd_ne _ _ _ _ this]; exact f hpc
+  case g3 m h tl p r =>
+    cases r <;> simp only [Loc] at hq ⊢
+    · exact hq
+    · obtain ⟨a, b, c, e, f, k⟩ := hq
+      refine ⟨a, b, c, e, fun hpc => ?_, k⟩
+      have : p ≠ R.nextGrp := by omega
+      rw [upd_ne _ _ _ _ this]; exact f hpc
+  case tcs h cur =>
+    simp only [Loc] at hq ⊢
+    obtain ⟨a, b, c, d, e⟩ := hq
+    exact ⟨a, b, c, d, fun s' hs' => e s' ((hr s').mp hs')⟩
+  case tcc h tl cur =>
+    simp only [Loc] at hq ⊢
+    obtain ⟨a, b, c, d, e, f⟩ := hq
+    exact ⟨a, b, c, d, e, fun s' hs' => f s' ((hr s').mp hs')⟩
+  case tg h | wr h o =>
+    simp only [Loc] at hq ⊢
+    obtain ⟨a, b, c, d⟩ := hq
+    exact ⟨a, fun s' hs' => b s' ((hr s').mp hs'), c, d⟩
+  case ts h o =>
+    simp only [Loc] at hq ⊢
+    obtain ⟨a, b, c, d, e⟩ := hq
+    exact ⟨a, fun s' hs' => b s' ((hr s').mp hs'), c, d, e⟩
+  case a3 c raw ng' =>
+    simp only [Loc] at hq ⊢
+    obtain ⟨a, b, c1, d, e⟩ := hq
+    refine ⟨a, b, c1, by omega, ?_⟩
+    rw [upd_ne _ _ _ _ (by omega), upd_ne _ _ _ _ (by omega)]; exact e
+  case rr2 c ng' =>
+    simp only [Loc] at hq ⊢
+    obtain ⟨a, b, e⟩ := hq
+    refine ⟨a, by omega, ?_⟩
+    rw [upd_ne _ _ _ _ (by omega), upd_ne _ _ _ _ (by omega)]; exact e
+  all_goals (simp only [Loc, sawTag] at hq ⊢; try exact hq)
+
+theorem rinvR_alloc {R : Ring} {th : Nat → Th} {t : Nat} {x' : Th} {l : List Nat} (I : RInvR R th)
+    (hl : Loc { R with nextGrp := R.nextGrp + 1, groups := upd R.groups R.nextGrp l } x')
+    (hc : x'.pc.claim = (th t).pc.claim)
+    (hns : x'.pc.addPC = true → (th t).pc.addPC = true ∧ x'.ns = (th t).ns) :
+    RInvR { R with nextGrp := R.nextGrp + 1, groups := upd R.groups R.nextGrp l } (upd th t x') := by
+  have g := I.g
+  have hr := fun s => @reg_alloc R l g.curlt s
+  refine rinvR_mk I ?_ ?_ hl ?_ ?_ hns
+  · refine { hN := g.hN, regne := ?_, posle := ?_, win := ?_, tcle := ?_, tcN := g.tcN, loglen := g.loglen,
+             startle := ?_, dlv := ?_, tagwf := g.tagwf, curlt := ?_, regest := ?_, estsub := g.estsub }
+    · simp only []; rw [upd_ne _ _ _ _ (by have := g.curlt; omega)]; exact g.regne
+    · intro s hs; exact g.posle s ((hr s).mp hs)
+    · intro s hs; exact g.win s ((hr s).mp hs)
+    · intro s hs; exact g.tcle s ((hr s).mp hs)
+    · intro s hs; exact g.startle s ((hr s).mp hs)
+    · intro s hs; exact g.dlv s ((hr s).mp hs)
+    · have := g.curlt; simp only []; omega
+    · intro s hs; exact g.regest s ((hr s).mp hs)
+  · intro u hu; exact loc_alloc_stable g.curlt (I.loc u)
+  · intro i a b; exact slots_same I hc i a b
+  · intro u h hu hcu e
+    rw [hc] at e
+    exact hu (I.claiminj u t h hcu e)
+
+end MQ
+
+namespace MQ
+
+/-- the current group pointer moves forward to a group whose streams were all registered before -/
+theorem loc_cur_stable {R : Ring} {x : Th} {ng : Nat} (hq : Loc R x) (hlt : R.cur < ng)
+    (hsub : ∀ s', s' ∈ R.groups ng → reg R s') :
+    Loc { R with cur := ng } x := by
+  obtain ⟨pc, g', v', outer, ff, pn, ng', ns, s, single, aux⟩ := x
+  cases pc
+  case g2 m h tl p i md =>
+    simp only [Loc] at hq ⊢
+    obtain ⟨a, b, c, e, f, k⟩ := hq
+    exact ⟨a, b, c, by omega, fun hpc => by omega, k⟩
+  case g3 m h tl p r =>
+    cases r <;> simp only [Loc] at hq ⊢
+    · exact hq
+    · obtain ⟨a, b, c, e, f, k⟩ := hq
+      exact ⟨a, b, c, by omega, fun hpc => by omega, k⟩
+  case tcs h cur =>
+    simp only [Loc, reg] at hq ⊢
+    obtain ⟨a, b, c, d, e⟩ := hq
+    exact ⟨a, b, c, d, fun s' hs' => e s' (hsub s' hs')⟩
+  case tcc h tl cur =>
+    simp only [Loc, reg] at hq ⊢
+    obtain ⟨a, b, c, d, e, f⟩ := hq
+    exact ⟨a, b, c, d, e, fun s' hs' => f s' (hsub s' hs')⟩
+  case tg h | wr h o =>
+    simp only [Loc, reg] at hq ⊢
+    obtain ⟨a, b, c, d⟩ := hq
+    exact ⟨a, fun s' hs' => b s' (hsub s' hs'), c, d⟩
+  case ts h o =>
+    simp only [Loc, reg] at hq ⊢
+    obtain ⟨a, b, c, d, e⟩ := hq
+    exact ⟨a, fun s' hs' => b s' (hsub s' hs'), c, d, e⟩
+  case a2 c =>
+    simp only [Loc] at hq ⊢
+    exact ⟨hq.1, hq.2.1, by omega⟩
+  all_goals (simp only [Loc, sawTag] at hq ⊢; try exact hq)
+
+/-- `remove_reader`'s CAS succeeds -/
+theorem rinvR_remove {R : Ring} {th : Nat → Th} {t : Nat} {x' : Th} {ng : Nat} (I : RInvR R th)
+    (hlt : R.cur < ng) (hng : ng < R.nextGrp) (hsub : ∀ s', s' ∈ R.groups ng → reg R s')
+    (hne : R.groups ng ≠ [])
+    (hl : Loc { R with cur := ng } x') (hc : x'.pc.claim = (th t).pc.claim) (hxa : x'.pc.addPC = false) :
+    RInvR { R with cur := ng } (upd th t x') := by
+  have g := I.g
+  refine rinvR_mk I ?_ ?_ hl ?_ ?_ (by intro e; rw [hxa] at e; cases e)
+  · exact { hN := g.hN, regne := hne, posle := fun s hs => g.posle s (hsub s hs),
+            win := fun s hs => g.win s (hsub s hs), tcle := fun s hs => g.tcle s (hsub s hs), tcN := g.tcN,
+            loglen := g.loglen, startle := fun s hs => g.startle s (hsub s hs),
+            dlv := fun s hs => g.dlv s (hsub s hs), tagwf := g.tagwf, curlt := hng,
+            regest := fun s hs => g.regest s (hsub s hs), estsub := g.estsub }
+  · intro u hu; exact loc_cur_stable (I.loc u) hlt hsub
+  · intro i a b; exact slots_same I hc i a b
+  · intro u h hu hcu e
+    rw [hc] at e
+    exact hu (I.claiminj u t h hcu e)
+
+end MQ
+
+namespace MQ
+
+/-- the ring after a successful `add_stream` publication -/
+def Ring.added (R : Ring) (ng ns raw : Nat) : Ring :=
+  { R with cur := ng, pos := upd R.pos ns raw, dlv := upd R.dlv ns [], start := upd R.start ns raw,
+           est := upd R.est ns true }
+
+theorem loc_add_stable {R : Ring} {x : Th} {ng ns raw s : Nat} (g : Glob R) (hq : Loc R x)
+    (hlt : R.cur < ng) (hgrp : R.groups ng = R.groups R.cur ++ [ns]) (hs : reg R s) (hraw : R.pos s = raw)
+    (hest : R.est ns = false)
+    (hxs : x.pc.recvActive = true → x.s ≠ ns) (hxn : x.pc.addPC = true → x.ns ≠ ns) :
+    Loc (R.added ng ns raw) x := by
+  have hnotreg : ¬ reg R ns := fun h => by have := g.regest ns h; rw [hest] at this; cases this
+  have hreg : ∀ s', reg (R.added ng ns raw) s' → (reg R s' ∧ s' ≠ ns) ∨ s' = ns := by
+    intro s' h
+    simp only [reg, Ring.added, hgrp, List.mem_append, List.mem_singleton] at h
+    rcases h with h | h
+    · left; exact ⟨h, fun e => hnotreg (e ▸ h)⟩
+    · right; exact h
+  have posfix : ∀ s', s' ≠ ns → (R.added ng ns raw).pos s' = R.pos s' := fun s' h => by
+    simp only [Ring.added, upd_ne _ _ _ _ h]
+  have posns : (R.added ng ns raw).pos ns = R.pos s := by simp only [Ring.added, upd_same, hraw]
+  have ge_all : ∀ c, (∀ s', reg R s' → c ≤ R.pos s') → ∀ s', reg (R.added ng ns raw) s' → c ≤ (R.added ng ns raw).pos s' := by
+    intro c h s' hs'
+    rcases hreg s' hs' with ⟨a, b⟩ | e
+    · rw [posfix s' b]; exact h s' a
+    · subst e; rw [posns]; exact h s hs
+  have le_all : ∀ c, (∀ s', reg R s' → R.pos s' ≤ c) → ∀ s', reg (R.added ng ns raw) s' → (R.added ng ns raw).pos s' ≤ c := by
+    intro c h s' hs'
+    rcases hreg s' hs' with ⟨a, b⟩ | e
+    · rw [posfix s' b]; exact h s' a
+    · subst e; rw [posns]; exact h s hs
+  obtain ⟨pc, g', v', outer, ff, pn, ng', ns', sx, single, aux⟩ := x
+  cases pc
+  case g2 m h tl p i md =>
+    simp only [Loc] at hq ⊢
+    obtain ⟨a, b, c, e, f, k⟩ := hq
+    exact ⟨a, b, c, by simp only [Ring.added]; omega, fun hpc => by simp only [Ring.added] at hpc; omega, k⟩
+  case g3 m h tl p r =>
+    cases r <;> simp only [Loc] at hq ⊢
+    · exact hq
+    · obtain ⟨a, b, c, e, f, k⟩ := hq
+      exact ⟨a, b, c, by simp only [Ring.added]; omega, fun hpc => by simp only [Ring.added] at hpc; omega, k⟩
+  case tcs h cur =>
+    simp only [Loc] at hq ⊢
+    obtain ⟨a, b, c, d, e⟩ := hq
+    exact ⟨a, b, c, d, ge_all cur e⟩
+  case tcc h tl cur =>
+    simp only [Loc] at hq ⊢
+    obtain ⟨a, b, c, d, e, f⟩ := hq
+    exact ⟨a, b, c, d, e, ge_all cur f⟩
+  case tg h | wr h o =>
+    simp only [Loc] at hq ⊢
+    obtain ⟨a, b, c, d⟩ := hq
+    exact ⟨a, le_all h b, c, d⟩
+  case ts h o =>
+    simp only [Loc] at hq ⊢
+    obtain ⟨a, b, c, d, e⟩ := hq
+    exact ⟨a, le_all h b, c, d, e⟩
+  case is1 p | r1 p sg | r2 p sg | r3 p sg | r3b p sg =>
+    simp only [Loc, PC.recvActive] at hq hxs ⊢
+    rw [posfix sx (hxs trivial)]; exact hq
+  case r4 p | r5 p sg | r6 p | rd p sg =>
+    simp only [Loc, sawTag, PC.recvActive] at hq hxs ⊢
+    rw [posfix sx (hxs trivial)]; exact hq
+  case rc p sg c | r8 p c | r9 p sg c =>
+    simp only [Loc, sawTag, PC.recvActive] at hq hxs ⊢
+    rw [posfix sx (hxs trivial)]; exact hq
+  case v1 p | v2 p | v3 p =>
+    simp only [Loc, PC.recvActive] at hq hxs ⊢
+    rw [posfix sx (hxs trivial)]; exact hq
+  case vw p c | vd p c | v4 p c =>
+    simp only [Loc, PC.recvActive] at hq hxs ⊢
+    rw [posfix sx (hxs trivial)]; exact hq
+  case a1 =>
+    simp only [Loc, PC.addPC, Ring.added] at hq hxn ⊢
+    exact ⟨hq.1, by rw [upd_ne _ _ _ _ (hxn trivial)]; exact hq.2⟩
+  case a2 c =>
+    simp only [Loc, PC.addPC, Ring.added] at hq hxn ⊢
+    exact ⟨hq.1, by rw [upd_ne _ _ _ _ (hxn trivial)]; exact hq.2.1, by omega⟩
+  case a3 c raw' ng'' =>
+    simp only [Loc, PC.addPC, Ring.added] at hq hxn ⊢
+    obtain ⟨a, b, c1, d, e⟩ := hq
+    exact ⟨a, by rw [upd_ne _ _ _ _ (hxn trivial)]; exact b, c1, d, e⟩
+  all_goals (simp only [Loc, sawTag] at hq ⊢; try exact hq)
+
+end MQ
+
+namespace MQ
+
+/-- `add_stream`'s CAS succeeds while the parent position still equals the snapshot -/
+theorem rinvR_add {R : Ring} {th : Nat → Th} {t : Nat} {x' : Th} {ng ns raw s : Nat} (I : RInvR R th)
+    (hregd : ∀ u, (th u).pc.recvActive = true → reg R (th u).s)
+    (hpcadd : (th t).pc.addPC = true) (htns : (th t).ns = ns)
+    (hlt : R.cur < ng) (hng : ng < R.nextGrp) (hgrp : R.groups ng = R.groups R.cur ++ [ns])
+    (hs : reg R s) (hraw : R.pos s = raw) (hest : R.est ns = false) (hsu : R.sused ns = true)
+    (hl : Loc (R.added ng ns raw) x') (hc : x'.pc.claim = (th t).pc.claim) (hxa : x'.pc.addPC = false) :
+    RInvR (R.added ng ns raw) (upd th t x') := by
+  have g := I.g
+  have hnotreg : ¬ reg R ns := fun h => by have := g.regest ns h; rw [hest] at this; cases this
+  have hreg : ∀ s', reg (R.added ng ns raw) s' → (reg R s' ∧ s' ≠ ns) ∨ s' = ns := by
+    intro s' h
+    simp only [reg, Ring.added, hgrp, List.mem_append, List.mem_singleton] at h
+    rcases h with h | h
+    · left; exact ⟨h, fun e => hnotreg (e ▸ h)⟩
+    · right; exact h
+  refine rinvR_mk I ?_ ?_ hl ?_ ?_ (by intro e; rw [hxa] at e; cases e)
+  · refine { hN := g.hN, regne := ?_, posle := ?_, win := ?_, tcle := ?_, tcN := g.tcN, loglen := g.loglen,
+             startle := ?_, dlv := ?_, tagwf := g.tagwf, curlt := hng, regest := ?_, estsub := ?_ }
+    · simp [Ring.added, hgrp]
+    · intro s' hs'
+      rcases hreg s' hs' with ⟨a, b⟩ | e
+      · simp only [Ring.added, upd_ne _ _ _ _ b]; exact g.posle s' a
+      · subst e; simp only [Ring.added, upd_same]; rw [← hraw]; exact g.posle s hs
+    · intro s' hs'
+      rcases hreg s' hs' with ⟨a, b⟩ | e
+      · simp only [Ring.added, upd_ne _ _ _ _ b]; exact g.win s' a
+      · subst e; simp only [Ring.added, upd_same]; rw [← hraw]; exact g.win s hs
+    · intro s' hs'
+      rcases hreg s' hs' with ⟨a, b⟩ | e
+      · simp only [Ring.added, upd_ne _ _ _ _ b]; exact g.tcle s' a
+      · subst e; simp only [Ring.added, upd_same]; rw [← hraw]; exact g.tcle s hs
+    · intro s' hs'
+      rcases hreg s' hs' with ⟨a, b⟩ | e
+      · simp only [Ring.added, upd_ne _ _ _ _ b]; exact g.startle s' a
+      · subst e; simp only [Ring.added, upd_same]; exact Nat.le_refl _
+    · intro s' hs'
+      rcases hreg s' hs' with ⟨a, b⟩ | e
+      · simp only [Ring.added, upd_ne _ _ _ _ b]; exact g.dlv s' a
+      · subst e; simp [Ring.added]
+    · intro s' hs'
+      rcases hreg s' hs' with ⟨a, b⟩ | e
+      · simp only [Ring.added, upd_ne _ _ _ _ b]; exact g.regest s' a
+      · subst e; simp [Ring.added]
+    · intro s' hs'
+      by_cases e : s' = ns
+      · subst e; exact hsu
+      · simp only [Ring.added, upd_ne _ _ _ _ e] at hs' ⊢; exact g.estsub s' hs'
+  · intro u hu
+    apply loc_add_stable g (I.loc u) hlt hgrp hs hraw hest
+    · intro hr e
+      have := g.regest _ (hregd u hr)
+      rw [e, hest] at this; cases this
+    · intro ha e
+      exact hu (I.nsinj u t ha hpcadd (by rw [e, htns]))
+  · intro i a b; exact slots_same I hc i a b
+  · intro u h hu hcu e
+    rw [hc] at e
+    exact hu (I.claiminj u t h hcu e)
+
+end MQ
+
+namespace MQ
+
+theorem loc_sused_stable {R : Ring} {x : Th} {ns : Nat} (hq : Loc R x) :
+    Loc { R with sused := upd R.sused ns true } x := by
+  have mono : ∀ s, R.sused s = true → upd R.sused ns true s = true := by
+    intro s h; by_cases e : s = ns
+    · subst e; simp [upd]
+    · simp [upd, e, h]
+  obtain ⟨pc, g', v', outer, ff, pn, ng', ns', sx, single, aux⟩ := x
+  cases pc
+  case g3 m h tl p r => cases r <;> (simp only [Loc, reg] at hq ⊢; exact hq)
+  case a1 =>
+    simp only [Loc] at hq ⊢; exact ⟨mono _ hq.1, hq.2⟩
+  case a2 c =>
+    simp only [Loc] at hq ⊢; exact ⟨mono _ hq.1, hq.2⟩
+  case a3 c raw ng =>
+    simp only [Loc] at hq ⊢; exact ⟨mono _ hq.1, hq.2⟩
+  all_goals (simp only [Loc, reg, sawTag] at hq ⊢; try exact hq)
+
+/-- a call that reserves a fresh stream id -/
+theorem rinvR_sused {R : Ring} {th : Nat → Th} {t : Nat} {x' : Th} {ns : Nat} (I : RInvR R th)
+    (hfresh : R.sused ns = false) (hidle : (th t).pc.claim = none) (hna : (th t).pc.addPC = false)
+    (hl : Loc { R with sused := upd R.sused ns true } x') (hc : x'.pc.claim = none)
+    (hxns : x'.pc.addPC = true → x'.ns = ns) :
+    RInvR { R with sused := upd R.sused ns true } (upd th t x') := by
+  have g := I.g
+  refine ⟨?_, ?_, ?_, ?_, ?_⟩
+  · refine { g with estsub := ?_ }
+    intro s hs
+    have := g.estsub s hs
+    by_cases e : s = ns
+    · subst e; simp [upd]
+    · simp only [upd_ne _ _ _ _ e]; exact this
+  · intro u; by_cases e : u = t
+    · subst e; simpa using hl
+    · simp only [upd_ne _ _ _ _ e]; exact loc_sused_stable (I.loc u)
+  · intro i a b
+    rcases I.slots i a b with ⟨u, hu⟩ | h
+    · left; refine ⟨u, ?_⟩
+      by_cases e : u = t
+      · subst e; rw [hidle] at hu; cases hu
+      · simpa [upd, e] using hu
+    · exact Or.inr h
+  · intro t1 t2 h h1 h2
+    by_cases e1 : t1 = t <;> by_cases e2 : t2 = t
+    · rw [e1, e2]
+    · subst e1; simp only [upd_same] at h1; rw [hc] at h1; cases h1
+    · subst e2; simp only [upd_same] at h2; rw [hc] at h2; cases h2
+    · simp only [upd_ne _ _ _ _ e1, upd_ne _ _ _ _ e2] at h1 h2; exact I.claiminj t1 t2 h h1 h2
+  · intro t1 t2 h1 h2 e
+    -- a thread already in add_stream holds a used id, the new one is fresh
+    have used : ∀ u, u ≠ t → (th u).pc.addPC = true → R.sused (th u).ns = true := by
+      intro u _ hu
+      have L := I.loc u
+      cases hp : (th u).pc <;> rw [hp] at hu <;> simp only [PC.addPC] at hu <;> try cases hu
+      all_goals (simp only [Loc, hp] at L; exact L.1)
+    by_cases e1 : t1 = t <;> by_cases e2 : t2 = t
+    · rw [e1, e2]
+    · subst e1
+      simp only [upd_same, upd_ne _ _ _ _ e2] at h1 h2 e
+      have := used t2 e2 h2
+      rw [← e, hxns h1, hfresh] at this; cases this
+    · subst e2
+      simp only [upd_same, upd_ne _ _ _ _ e1] at h1 h2 e
+      have := used t1 e1 h1
+      rw [e, hxns h2, hfresh] at this; cases this
+    · simp only [upd_ne _ _ _ _ e1, upd_ne _ _ _ _ e2] at h1 h2 e; exact I.nsinj t1 t2 h1 h2 e
 
 end MQ
